@@ -32,6 +32,16 @@ Proof.
   - rewrite E; simpl. intros p [Hp|[]]; discriminate.
 Qed.
 
+Lemma step_queuefail : forall s c s', Inv s -> step s (QueueFail c) = Some s' -> Inv s'.
+Proof.
+  intros s c s' I H. simpl in H. destruct (e_st (ent s c)) eqn:ES; try discriminate. destruct (closed s); try discriminate. inv_some.
+  pose proof (I_good s I c) as G.
+  assert (E : e_comp (ent s c) = []) by (eapply comp_nil_of_good; eauto; congruence).
+  apply inv_with_ent_local; simpl; auto; try congruence.
+  - apply good_complete; auto; congruence.
+  - rewrite E; simpl. intros p [Hp|[]]; discriminate.
+Qed.
+
 Lemma step_initfail : forall s c s', Inv s -> step s (InitFail c) = Some s' -> Inv s'.
 Proof.
   intros s c s' I H. simpl in H. pose proof (I_good s I c) as G.
@@ -145,6 +155,38 @@ Proof.
   intros s c s' I H. simpl in H. pose proof (I_good s I c) as G.
   destruct (e_st (ent s c)) eqn:ES; try discriminate.
   destruct (loaded_on (loops s (e_host (ent s c))) i) eqn:EL; try discriminate. inv_some.
+  assert (E : e_comp (ent s c) = []) by (eapply comp_nil_of_good; eauto; congruence).
+  pose proof (I_st_tab s I _ _ ES) as Hin0.
+  destruct I as [I_alloc_le0 I_alloc_sorted0 I_tab_st0 I_st_tab0 I_tab_nodup0 I_st_alloc0 I_good0 I_resp_alloc0 I_loop0]. constructor; simpl; auto.
+  - intros j c' Hin. apply remove_id_In in Hin. destruct Hin as [Hin Hne].
+    destruct (Nat.eq_dec c' c) as [E'|N]; [subst; apply I_tab_st0 in Hin; congruence | rewrite upd_other; auto].
+  - intros j c' H. destruct (Nat.eq_dec c' c) as [E'|N].
+    + subst; rewrite upd_same in H; simpl in H; discriminate.
+    + rewrite upd_other in H; auto. apply remove_id_In. split; auto.
+      intros Ej; subst. apply I_st_tab0 in H. pose proof (NoDup_fst_inj _ _ _ _ I_tab_nodup0 H Hin0). congruence.
+  - apply NoDup_map_filter; auto.
+  - intros j c' H. destruct (Nat.eq_dec c' c) as [E'|N].
+    + subst; rewrite upd_same in H; simpl in H. destruct H; discriminate.
+    + rewrite upd_other in H; auto.
+  - apply good_upd; auto. apply good_complete; auto; congruence.
+  - intros c' p H. destruct (Nat.eq_dec c' c) as [E'|N].
+    + subst; rewrite upd_same in H; simpl in H. rewrite E in H; simpl in H. destruct H as [H|[]]; discriminate.
+    + rewrite upd_other in H; eauto.
+  - intros h ep j c' p H. destruct (I_loop0 _ _ _ _ _ H) as (A & B & C). subst p.
+    assert (j <> i).
+    { intros Ej; subst j. pose proof (NoDup_fst_inj _ _ _ _ I_tab_nodup0 A Hin0) as Ec. subst c'.
+      rewrite B in EL. rewrite H in EL. simpl in EL. now rewrite Nat.eqb_refl in EL. }
+    repeat split; auto.
+    + apply remove_id_In; auto.
+    + destruct (Nat.eq_dec c' c) as [E'|N]; [subst; apply I_tab_st0 in A; congruence | rewrite upd_other; auto].
+Qed.
+
+Lemma step_closefail : forall s c s', Inv s -> step s (CloseFail c) = Some s' -> Inv s'.
+Proof.
+  intros s c s' I H. simpl in H. pose proof (I_good s I c) as G.
+  destruct (e_st (ent s c)) eqn:ES; try discriminate.
+  destruct (closed s); simpl in H; try discriminate.
+  destruct (loaded_on (loops s (e_host (ent s c))) i) eqn:EL; simpl in H; try discriminate. inv_some.
   assert (E : e_comp (ent s c) = []) by (eapply comp_nil_of_good; eauto; congruence).
   pose proof (I_st_tab s I _ _ ES) as Hin0.
   destruct I as [I_alloc_le0 I_alloc_sorted0 I_tab_st0 I_st_tab0 I_tab_nodup0 I_st_alloc0 I_good0 I_resp_alloc0 I_loop0]. constructor; simpl; auto.
@@ -313,6 +355,17 @@ Proof.
   - eapply step_return; eauto.
   - simpl in H. inv_some. destruct I as [I_alloc_le0 I_alloc_sorted0 I_tab_st0 I_st_tab0 I_tab_nodup0 I_st_alloc0 I_good0 I_resp_alloc0 I_loop0]. constructor; simpl; auto.
   - simpl in H. inv_some. exact I.
+  - simpl in H. destruct I as [I_alloc_le0 I_alloc_sorted0 I_tab_st0 I_st_tab0 I_tab_nodup0 I_st_alloc0 I_good0 I_resp_alloc0 I_loop0].
+    assert (Hs : s' = mkState (next_id s) (tab s) (ent s) (updl (loops s) h (LIdle (epoch s))) (epoch s) (closed s) (outdated s) (alloc s))
+      by (destruct (loops s h); try discriminate; inv_some; reflexivity).
+    subst s'. constructor; simpl; auto.
+    intros h' ep' j c' p' H'. destruct (Nat.eq_dec h' h) as [E|N]; [subst; rewrite updl_same in H'; discriminate | rewrite updl_other in H'; eauto].
+  - simpl in H. destruct (loops s h) eqn:EL; try discriminate. destruct (closed s); try discriminate. inv_some.
+    destruct I as [I_alloc_le0 I_alloc_sorted0 I_tab_st0 I_st_tab0 I_tab_nodup0 I_st_alloc0 I_good0 I_resp_alloc0 I_loop0].
+    constructor; simpl; auto.
+    intros h' ep' j c' p' H'. destruct (Nat.eq_dec h' h) as [E|N]; [subst; rewrite updl_same in H'; discriminate | rewrite updl_other in H'; eauto].
+  - eapply step_closefail; eauto.
+  - eapply step_queuefail; eauto.
 Qed.
 
 Lemma run_inv : forall ls s s', Inv s -> run s ls = Some s' -> Inv s'.
